@@ -5,7 +5,7 @@ From Coq Require Import ZArith List Bool Reals PrimFloat.
 From FT.lib Require Import Num Arr ArrLemmas NumArr.
 From FT.gen Require Import Common Interp2d Interp3d Vinterp2d Vinterp3d Fteik2d Fteik3d Ray2d Ray3d.
 From FT.proofs Require Import NumFLaws SafetyTools Safety2d SafetyInterp Ray2dProofs.
-From FT.proofs Require Safety3d Ray3dProofs RaySafety2d RaySafety3d SafetySolveTools SafetySolve2d SafetySolve3d TruncLawsF.
+From FT.proofs Require Safety3d Ray3dProofs RaySafety2d RaySafety3d RaySafetyExtra SafetySolveTools SafetySolve2d SafetySolve3d TruncLawsF.
 Import ListNotations.
 Open Scope Z_scope.
 
@@ -363,6 +363,53 @@ Theorem C12_ray_max_step_0_refuted :
          0.5%float 0.5%float 0%float 0%float 0.25%float 0 false = false.
 Proof. exact @RaySafety2d.ray2d_core_ok_max_step_0_refuted. Qed.
 
+(* the list (parallel) form of the 2D tracer and its public entry point: every per-item access, the per-item buffers and the count array in range, any number of end points *)
+Theorem C12_ray2d_list_ok :
+  forall (T : Type) (H : Num T),
+       RaySafety2d.RayLaws ->
+       forall (z x zgrad xgrad : arr T) (nz nx : Z),
+       axisn z nz ->
+       axisn x nx ->
+       2 <= nz ->
+       2 <= nx ->
+       shape zgrad = [nz; nx] ->
+       shape xgrad = [nz; nx] ->
+       forall (fuel : nat) (p src : arr T) (n : Z) (stepsize : T) (max_step : Z) (hg : bool),
+       shape p = [n; 2] ->
+       shape src = [2] ->
+       1 <= max_step ->
+       (hg = true -> RaySafety2d.axis_min z nz /\ RaySafety2d.axis_min x nx) ->
+       ray2d_n_ok true false fuel z x zgrad xgrad p src stepsize max_step hg = true.
+Proof. exact @RaySafetyExtra.ray2d_n_ok_true. Qed.
+
+(* 3D list form *)
+Theorem C12_ray3d_list_ok :
+  forall (T : Type) (H : Num T),
+       RaySafety2d.RayLaws ->
+       forall (z x y zgrad xgrad ygrad : arr T) (nz nx ny : Z),
+       axisn z nz ->
+       axisn x nx ->
+       axisn y ny ->
+       2 <= nz ->
+       2 <= nx ->
+       2 <= ny ->
+       shape zgrad = [nz; nx; ny] ->
+       shape xgrad = [nz; nx; ny] ->
+       shape ygrad = [nz; nx; ny] ->
+       forall (fuel : nat) (p src : arr T) (n : Z) (stepsize : T) (max_step : Z) (hg : bool),
+       shape p = [n; 3] ->
+       shape src = [3] ->
+       1 <= max_step ->
+       (hg = true -> RaySafety2d.axis_min z nz /\ RaySafety2d.axis_min x nx /\ RaySafety2d.axis_min y ny) ->
+       ray3d_n_ok true false fuel z x y zgrad xgrad ygrad p src stepsize max_step hg = true.
+Proof. exact @RaySafetyExtra.ray3d_n_ok_true. Qed.
+
+(* the end-point array must have 2 columns: with shape [2;1] the obligation is false (vm_compute) *)
+Theorem C12_ray_list_shape_needed :
+  ray2d_n_ok true false 200 RaySafety2d.ex_ax RaySafety2d.ex_ax RaySafety2d.ex_grad RaySafety2d.ex_grad
+         {| shape := [2; 1]; dat := [0.75%float; 0.5%float] |} RaySafetyExtra.xb_src2 0.25%float 20 true = false.
+Proof. exact @RaySafetyExtra.ray2d_n_ok_shape_needed. Qed.
+
 (* the WHOLE 2D solver (domain test, source cell lookup, both initialisation branches with all four loops and the admissibility guards, nsweep passes, gradient assembly) performs only in-range accesses, for every model with >= 1 cell per axis, positive spacings, every source (an outside source raises before any access), nsweep and flag - for every numeric instance satisfying TruncLaws (truncation of a non-negative quotient is non-negative; the rounded quotient of an in-domain source is a node index) *)
 Theorem C12_solve2d_ok :
   forall (T : Type) (H : Num T) (TruncLaws0 : SafetySolveTools.TruncLaws T) (slow : arr T) 
@@ -483,6 +530,9 @@ Print Assumptions C12_ray_ok_binary64_2d.
 Print Assumptions C12_ray_ok_binary64_3d.
 Print Assumptions C12_ray_axis_min_needed.
 Print Assumptions C12_ray_max_step_0_refuted.
+Print Assumptions C12_ray2d_list_ok.
+Print Assumptions C12_ray3d_list_ok.
+Print Assumptions C12_ray_list_shape_needed.
 Print Assumptions C12_solve2d_ok.
 Print Assumptions C12_solve2d_ok_reals.
 Print Assumptions C12_solve3d_ok.
